@@ -276,6 +276,7 @@ def check_case(pyhf, case, backend, precision, props, rng, model_cache):
                 F.append(Finding("C12", "model built through Workspace.model differs from the model built from the same specification",
                                  {"case": slim}, tags_base + ["wsmodel"]))
             tags_b = tags_base + ["build"] + (["has_lumi"] if any(p["type"] == 2 for p in case["params"]) else []) + \
+                (["aux_override"] if any(pc["auxdata"] or pc["sigmas"] or pc["factors"] for pc in case["spec"]["pars"]) else []) + \
                 (["mixed_fixed"] if any(len(set(p["fixed"])) > 1 for p in case["params"]) else [])
             try:
                 ws2 = pyhf.Workspace.build(model, wd)
